@@ -27,7 +27,7 @@ theorem incFuel_ok (P : Prims) (O : OutPrims) (cfg : Cfg) (fs : FS) (fuel : Nat)
     IncOk (mkCtx P O cfg fs fuel) := by
   intro line f env
   cases fuel with
-  | zero => exact .unmodelled _
+  | zero => exact .fail _
   | succ n => exact Stops.ofNoCalls (renderFileWith_noCalls P O cfg fs _ line f env)
 
 /-- the root sequence followed by the final flush stops on failure -/
